@@ -441,6 +441,13 @@ func (e *SpecEnv) evalCall(x *ast.CallExpr) Term {
 			vc.specFail(x, "cannot resolve %s", exprString(x.Fun))
 		}
 	}
+	if inner, ok := x.Fun.(*ast.CallExpr); ok {
+		// application of a function-valued spec term: f(a)(b)
+		f := e.eval(inner)
+		if _, isSig := under(f.T).(*types.Signature); isSig {
+			return e.applyFuncTerm(f, e.evalArgs(x.Args), x)
+		}
+	}
 	id, ok := x.Fun.(*ast.Ident)
 	if !ok {
 		// conversion with a composite type expression, e.g. []byte(x)
@@ -462,6 +469,17 @@ func (e *SpecEnv) evalCall(x *ast.CallExpr) Term {
 		}
 	}
 	switch id.Name {
+	case "islit":
+		// islit(f, N): f is the N-th function literal of the function under contract
+		f := e.eval(arg(0))
+		n, _ := strconv.Atoi(arg(1).(*ast.BasicLit).Value)
+		outer := vc.fi
+		for outer.Outer != nil {
+			outer = outer.Outer
+		}
+		name := "lit$" + sanitize(fmt.Sprintf("%s$%d", outer.Key, n))
+		vc.declare(name, "Int")
+		return boolTerm(eq(f.S, name))
 	case "lold":
 		n := *e
 		if e.lentry != nil {
